@@ -6,6 +6,7 @@ import (
 	"math/rand"
 	"os"
 	"path/filepath"
+	"strings"
 	"time"
 
 	"github.com/arm-doe/sts"
@@ -21,6 +22,8 @@ func init() {
 	register("C02", func(c *Ctx) { runE2E(c, "C02") })
 	register("C05", func(c *Ctx) { runE2E(c, "C05") })
 	register("C08", func(c *Ctx) { runE2E(c, "C08") })
+	register("C06", func(c *Ctx) { runCrashEnum(c, "C06") })
+	register("C07", func(c *Ctx) { runCrashEnum(c, "C07") })
 }
 
 var dataFaults = []string{fRefuse, fUnavailable, fFailPart, fCutBefore, fCutMid, fLostAnswer}
@@ -165,8 +168,13 @@ func e2eOne(c *Ctx, prop string, idx int, seed int64, sp *e2eSpec, dir string) {
 	defer o.w.close()
 	v := func(p, clause, fp, detail string) {
 		if p != prop {
-			res.Count("other_property_violations_seen_"+p, 1)
-			return
+			if !accepts[prop][p] {
+				res.Count("other_property_violations_seen_"+p, 1)
+				return
+			}
+			// the crash-consistency checks own every consequence of the crash they inject
+			fp = p + ":" + fp
+			p = prop
 		}
 		s := *sp
 		s.Events = tailEvents(o.events, 150)
@@ -183,6 +191,12 @@ func e2eOne(c *Ctx, prop string, idx int, seed int64, sp *e2eSpec, dir string) {
 	oracleOnce(o, v)
 	oracleLedger(o, v)
 	oracleTiling(o, v)
+	oracleCrashImage(o, v)
+	oracleNoDuplicateData(o, v)
+	for cls, n := range o.imageClasses {
+		res.Count("crash_image_class_"+cls, int64(n))
+	}
+	res.Count("crash_images_taken", int64(o.crashImages))
 
 	w := o.w
 	w.fmu.Lock()
@@ -217,6 +231,18 @@ func e2eOne(c *Ctx, prop string, idx int, seed int64, sp *e2eSpec, dir string) {
 		nt = fired > 0 || o.senderCrash+o.recvCrash > 0
 	case "C08":
 		nt = fired > 0 && countReq(o, "data") > 1
+	case "C06":
+		nt = o.recvCrash > 0
+		key = fmt.Sprintf("%s/%v/%d", key, sp.RecvCrashAt, len(o.imageClasses))
+		for _, e := range o.events {
+			if e.Kind == "recv_crash_point" {
+				res.Count("crash_op_"+strings.SplitN(e.S, " ", 2)[0], 1)
+				res.NonTrivial("point/" + e.S)
+			}
+		}
+	case "C07":
+		nt = o.senderCrash > 0
+		key = fmt.Sprintf("%s/%v", key, sp.SenderCrashAt)
 	}
 	if nt {
 		res.NonTrivial(key)
@@ -224,6 +250,93 @@ func e2eOne(c *Ctx, prop string, idx int, seed int64, sp *e2eSpec, dir string) {
 	res.Sample(map[string]any{"files": len(sp.Files), "threads": sp.Conf.Threads, "payload": sp.Conf.PayloadSize, "chunk": sp.Conf.Tags[0].Chunk,
 		"faults": sp.Faults, "faults_fired": w.fired, "sender_crash_at": sp.SenderCrashAt, "recv_crash_at": sp.RecvCrashAt, "mutations": sp.Mutations,
 		"data_requests": countReq(o, "data"), "polls": countReq(o, "poll"), "deliveries": len(o.delivered), "virtual_s": int64(w.vt() / time.Second)})
+}
+
+// which other properties' oracles a crash-enumeration check reports as its own
+var accepts = map[string]map[string]bool{
+	"C06": {"C01": true, "C03": true, "C05": true},
+	"C07": {"C02": true, "C03": true, "C05": true, "C08": true},
+}
+
+// runCrashEnum: fault enumeration.  For each scenario a recording-only reference
+// run counts the crash points (receiver: mutating file-system operations; sender:
+// boundary actions); then one run per chosen index crashes exactly there.
+func runCrashEnum(c *Ctx, prop string) {
+	nScen := c.N(6, 40)
+	capK := c.N(90, 100000)
+	idx := 0
+	for sidx := 0; sidx < nScen; sidx++ {
+		srng := rand.New(rand.NewSource(c.Seed*7919 + int64(sidx)))
+		sp0 := genSpec(srng, "crash-base", sidx)
+		sp0.Faults, sp0.Mutations, sp0.SenderCrashAt, sp0.RecvCrashAt = nil, nil, nil, nil
+		// scenario shapes: single small file; multi-part; chain in one payload; renamed; deletion
+		switch sidx % 6 {
+		case 0:
+			sp0.Files = []wsFile{{Name: "a.000.dat", Size: 300}}
+		case 1:
+			sp0.Files = []wsFile{{Name: "a.000.dat", Size: 3*sp0.Conf.PayloadSize + 17}}
+		case 2:
+			sp0.Files = genFiles(srng, 4, sp0.Conf.PayloadSize/3+1)
+		case 3:
+			sp0.Conf.Rename = true
+		case 4:
+			sp0.Conf.Tags[0].Delete = true
+		}
+		if prop == "C07" && srng.Intn(2) == 0 {
+			// make sure payloads are cut mid-way so that partial receptions exist at the crash
+			sp0.Faults = []fault{{Kind: fCutMid, Nth: 1 + srng.Intn(3), K: srng.Intn(2)}}
+		}
+		seed := srng.Int63()
+		// reference run (every child, uncounted)
+		nPoints := 0
+		{
+			dir := filepath.Join(c.Work, fmt.Sprintf("enum-ref-%d", sidx))
+			sp := *sp0
+			c.Guard(idx, &sp, func() {
+				bubble(c.T, func() {
+					o := e2eRun(c, seed, &sp, dir)
+					if prop == "C06" {
+						nPoints = o.recvOps
+					} else {
+						nPoints = o.actions
+					}
+					o.w.close()
+				})
+			})
+			os.RemoveAll(dir)
+		}
+		if nPoints == 0 {
+			nPoints = 40
+		}
+		step := 1
+		if nPoints > capK {
+			step = (nPoints + capK - 1) / capK
+		}
+		for k := 1 + (sidx % step); k <= nPoints+2; k += step {
+			if c.Mine(idx) {
+				sp := *sp0
+				if prop == "C06" {
+					sp.RecvCrashAt = []int{k}
+					if c.Thorough() && k%5 == 0 {
+						sp.RecvCrashAt = append(sp.RecvCrashAt, k+1+(k%17)) // a second crash, possibly during recovery
+					}
+				} else {
+					sp.SenderCrashAt = []int{k}
+					if c.Thorough() && k%5 == 0 {
+						sp.SenderCrashAt = append(sp.SenderCrashAt, k+2+(k%13))
+					}
+				}
+				sp.Note = fmt.Sprintf("crash point %d of %d (reference run)", k, nPoints)
+				dir := filepath.Join(c.Work, fmt.Sprintf("enum-%d", idx))
+				rs := seed + int64(k)*31
+				c.Guard(idx, &sp, func() {
+					bubble(c.T, func() { e2eOne(c, prop, idx, rs, &sp, dir) })
+				})
+				os.RemoveAll(dir)
+			}
+			idx++
+		}
+	}
 }
 
 func countReq(o *e2eOutcome, class string) int {
